@@ -144,6 +144,13 @@ class Scenario:
                     origin.overlay.send_data(x.hop.address, x.circuit_id, ("5.5.5.5", 5555), ("0.0.0.0", 0),
                                              b"d2:xx%de" % i)
             td = c["teardown"]
+            race = c.get("race")
+            if race is not None and x.state == "READY":
+                # opening an outside socket takes (virtual) time; the FIRST data cell of X reaches the exit shortly before
+                # the exit entry's linger runs out, so the teardown lands while the sockets are being opened
+                loop.open_latency = {"0.0.0.0": race[0] / 1000.0, "::": race[1] / 1000.0}
+                loop.call_later(st.remove_tunnel_delay - race[2] / 1000.0, origin.overlay.send_data, x.hop.address,
+                                x.circuit_id, ("5.5.5.5", 5555), ("0.0.0.0", 0), b"d4:racee")
             path = [n for n in w.path(x) if n is not None]
             # the ids circuit X uses at each node of its path (followed through the tables right now)
             x_ids: dict[int, list] = {}
@@ -213,10 +220,12 @@ class Scenario:
             if w.net.escaped:
                 e = w.net.escaped[0][3]
                 self.fail("R1", "exception:" + type(e).__name__, f"{type(e).__name__}: {e} escaped the receive path")
-            self.info["nontrivial"] = bool(control_hit) or td == "vanish"
-            self.info["cls"] = "%dhop/%s/%s/%dfaults%s" % (hops, c["phase"], td, len(c["faults"]),
-                                                          "/demand" if c.get("demand") else "")
-            self.info["desc"] = (hops, c["phase"], td, tuple(map(tuple, c["faults"])), bool(c.get("demand")))
+            self.info["nontrivial"] = bool(control_hit) or td == "vanish" or race is not None
+            self.info["cls"] = "%dhop/%s/%s/%dfaults%s%s" % (hops, c["phase"], td, len(c["faults"]),
+                                                            "/demand" if c.get("demand") else "",
+                                                            "/race" if race is not None else "")
+            self.info["desc"] = (hops, c["phase"], td, tuple(map(tuple, c["faults"])), bool(c.get("demand")),
+                                 tuple(race) if race is not None else None)
         finally:
             w.net.on_send = None
             await w.close()
@@ -341,6 +350,10 @@ def _enum_shard(ctx: Ctx, shard: int, nshards: int, which: int, pairs: bool) -> 
         for n in range(24):
             for kind in KINDS:
                 jobs.append({**s, "seed": 5, "faults": [[n, kind]]})
+        if s["phase"] == "ready" and s["teardown"] in ("originator", "relay0", "exit"):
+            for lat4, lat6 in ((0, 0), (2, 5), (5, 2), (3, 3)):
+                for gap in (0, 1, 3, 4, 6):
+                    jobs.append({**s, "seed": 5, "faults": [], "race": [lat4, lat6, gap]})
         if pairs and s["hops"] == 2:
             for a, b in itertools.combinations(range(16), 2):
                 for ka in ("drop", "delay"):
@@ -361,8 +374,9 @@ def _strategy():
     sc = st.sampled_from(scenarios())
     faults = st.lists(st.tuples(st.integers(0, 40), st.sampled_from(KINDS)).map(list), min_size=2, max_size=6,
                       unique_by=lambda f: f[0])
-    scen = st.tuples(sc, st.integers(0, 1000), faults, st.booleans()).map(
-        lambda t: {**t[0], "seed": t[1], "faults": t[2], "demand": t[3]})
+    race = st.none() | st.tuples(st.integers(0, 8), st.integers(0, 8), st.integers(0, 12)).map(list)
+    scen = st.tuples(sc, st.integers(0, 1000), faults, st.booleans(), race).map(
+        lambda t: {**t[0], "seed": t[1], "faults": t[2], "demand": t[3], **({"race": t[4]} if t[4] is not None else {})})
     join = st.fixed_dictionaries({"sub": st.just("join_limit"), "limit": st.integers(1, 4), "seed": st.integers(0, 99)})
     early = st.fixed_dictionaries({"sub": st.just("relay_early"), "limit": st.integers(0, 8), "burst": st.integers(1, 20),
                                    "seed": st.integers(0, 99)})
